@@ -26,6 +26,9 @@ For ALL ordered segment lists, options, separation distances and solver outputs:
   `retry_limits`               channel constraints survive the rewriting: within tol of its channel-edge
                                variables every free segment is within tol of its limits;
   `satisfied_no_retry`         a satisfied round ends the loop with distance and constraints unchanged;
+  `linesort_respects_rules`    the insertion sort `linesort`, with ANY comparator that agrees with the position /
+                               fixedOrder / order rules of `CmpLineOrder`, never violates the order check the
+                               driver applies to every dumped region (soundness of that check);
   `written_fixed`, `written_unsatisfied`, `written_in_limits`, `written_close`, `applied_separation_R`
                                the write-back rule: fixed segments and unsatisfied regions are never written,
                                written positions are inside [minSpaceLimit, maxSpaceLimit] and the
@@ -270,6 +273,52 @@ theorem satisfied_close (o : ROpts) (vars : List Var) (st : NState) (fps : List 
     ideal nudging distance (the code asserts `baseSepDist >= 0`) -/
 theorem reduction_nonincreasing_exact (o : ROpts) (hr : ∀ r, o.rnd r = r) (hb : 0 ≤ o.base) (s : Rat) :
     nextSep o s ≤ s := nextSep_le_exact o hr hb s
+
+/-! ### linesort: soundness of the order check the driver runs on every dumped region -/
+
+/-- `linesort` (insertion with a partial comparator, deferral of incomparable elements) with ANY
+    comparator — in particular `CmpLineOrder` with point orders that are not modelled — that agrees with
+    the position / fixedOrder / order rules wherever they decide, never leaves a segment directly
+    before one that the rules put before it: the check `orderViolation` the driver applies to every
+    dumped nudging region cannot alarm on a correct implementation (∀ comparators, list sizes,
+    deferral histories) -/
+theorem linesort_respects_rules (nd : Rat) (cmp : RSeg → RSeg → Bool × Bool)
+    (hagree : ∀ x y r, ruleCmp nd x y = some r → cmp x y = (r, true))
+    (fuel : Nat) (orig : List RSeg) (sz d : Nat) :
+    orderViolation nd (linesortLoop cmp fuel orig [] sz d) = none := by
+  apply orderViolation_none_of_adj
+  apply adj_mono _ _ (adj_linesortLoop cmp fuel orig [] sz d trivial)
+  intro x y hxy hr
+  have hyx : cmp y x = (true, true) := hagree y x true hr
+  rcases hxy with h | h
+  · have := hagree x y false (ruleCmp_antisymm nd y x hr)
+    rw [this] at h
+    cases h
+  · exact h hyx
+
+/-- the rule of `fixedOrder`'s flag at the call site: the flag of the pair is the OR of the two
+    (seeded change C10-2 made it the second one's only) -/
+theorem ruleCmp_fixed_rule (nd : Rat) (x y : RSeg) (hp : x.pos = y.pos)
+    (hf : (fixedOrder nd x).2 = true ∨ (fixedOrder nd y).2 = true) (hne : (fixedOrder nd x).1 ≠ (fixedOrder nd y).1) :
+    ruleCmp nd x y = some (decide ((fixedOrder nd x).1 < (fixedOrder nd y).1)) := by
+  unfold ruleCmp
+  have n1 : ¬ (x.pos ≠ y.pos) := fun h => h hp
+  rw [if_neg n1]
+  have : (((fixedOrder nd x).2 || (fixedOrder nd y).2) && decide ((fixedOrder nd x).1 ≠ (fixedOrder nd y).1)) = true := by
+    simp only [Bool.and_eq_true, Bool.or_eq_true, decide_eq_true_eq]
+    exact ⟨hf, hne⟩
+  simp only [this, if_true]
+
+/-- non-vacuity: a comparator that agrees with the rules exists (the rules themselves, undecided pairs
+    incomparable), and the check does alarm on a wrongly ordered pair -/
+example : ∃ cmp : RSeg → RSeg → Bool × Bool, ∀ x y r, ruleCmp 10 x y = some r → cmp x y = (r, true) :=
+  ⟨fun x y => match ruleCmp 10 x y with | some r => (r, true) | none => (false, false), by
+    intro x y r h; simp [h]⟩
+
+example : (orderViolation 10
+    [⟨1, 0, 100, 7, 0, 30, false, false, false, false, false, false, []⟩,
+     ⟨2, 50, 150, 5, 0, 30, false, false, false, false, false, false, []⟩]).isSome = true := by
+  decide +kernel
 
 /-! ### non-vacuity (closed witnesses, decided by the kernel) -/
 
